@@ -95,3 +95,14 @@ def build(eng, tier):
         "assumed_library_calls": res["assumed_library_calls"],
         "unresolved_method_names (library/builtin receivers)": res["unresolved_method_names"],
     }
+
+
+_build_C03 = build
+from . import serde_targets as _st  # noqa: E402
+TRUSTED = list(TRUSTED) + _st.TRUSTED
+
+
+def build(eng, tier):
+    _build_C03(eng, tier)
+    from . import serde_targets
+    serde_targets.add_value_info_target(eng)
